@@ -1,7 +1,7 @@
 # C05: iterators and circulators enumerate exactly the live / incident entities.
 # Shard parameters (harness/C05_iter.cpp, harness/C05_circ.cpp):
 #   0 base mesh, 1 kind of the deferred-deleted entities (0 none, 1 V, 2 E, 3 F, 4 C), 2 first case index of the query,
-#   3 iter: deletion-set mode (0 all pairs a<=b, 1 singles, 2 singles + (0,1),(n-2,n-1),(0,n-1)); circ: centre-group mask (1 V, 2 HE/E, 4 HF/F, 8 C; 0 all),
+#   3 iter: deletion-set mode (0 all pairs a<=b, 1 singles, 2 singles + (0,1),(n-2,n-1),(0,n-1)); circ: centre-group mask (1 V, 2 HE, 32 E, 4 HF, 16 F, 8 C; 0 all),
 #   4 circ: 1 = skip the real range-for loops, 5 cases per query (the symbolic selector ranges over them).
 _C05_MINI = 20
 _C05_COUNTS = dict(BASE_COUNTS); _C05_COUNTS[_C05_MINI] = (2, 1, 0, 0)
@@ -50,15 +50,17 @@ _c05_iter_thorough = _c05_iter_shards(
     [(b, k, 0, 6) for b in (B_LOWDIM, B_TET, B_TET2_FACE) for k in range(5) if k == 0 or _C05_COUNTS[b][k - 1]] +
     [(b, k, 2, 4) for b in (B_TET3_RING, B_HEX, B_PRISM_PYR) for k in range(5)])
 
-_G4 = [1, 2, 4, 8]   # one query per centre group
+_G4 = [1, 2 | 32, 4 | 16, 8]   # one query per centre dimension
+_G6 = [1, 2, 32, 4, 16, 8]     # one query per centre kind
+_G2 = [1 | 2 | 32, 4 | 16 | 8]  # two queries per state
 _c05_circ_quick = _c05_circ_shards(
-    [(B_LOWDIM, 0, [0], 1, [0])] + [(B_LOWDIM, k, _c05_all(B_LOWDIM, k), 3, [0]) for k in (1, 2, 3)] +
-    [(B_TET, 0, [0], 1, [0]), (B_TET, 1, [0, 3], 1, [0]), (B_TET, 2, [0, 5], 1, [0]), (B_TET, 3, [0], 1, [0]), (B_TET, 4, [0], 1, [0])] +
-    [(B_TET2_FACE, 0, [0], 1, _G4), (B_TET2_FACE, 4, [1], 1, _G4), (B_TET2_FACE, 1, [4], 1, _G4)])
+    [(B_LOWDIM, 0, [0], 1, [0])] + [(B_LOWDIM, k, _c05_all(B_LOWDIM, k), 2, [0]) for k in (1, 2, 3)] +
+    [(B_TET, 0, [0], 1, _G2), (B_TET, 1, [0, 3], 1, _G2), (B_TET, 2, [0, 5], 1, _G2), (B_TET, 3, [0], 1, _G2), (B_TET, 4, [0], 1, _G2)] +
+    [(B_TET2_FACE, 0, [0], 1, _G6), (B_TET2_FACE, 4, [1], 1, _G6), (B_TET2_FACE, 1, [4], 1, _G6)])
 _c05_circ_thorough = _c05_circ_shards(
-    [(b, 0, [0], 1, [0]) for b in (B_LOWDIM, B_TET)] +
-    [(B_LOWDIM, k, _c05_all(B_LOWDIM, k), 3, [0]) for k in (1, 2, 3)] +
-    [(B_TET, k, _c05_all(B_TET, k), 2, [0]) for k in (1, 2, 3, 4)] +
+    [(B_LOWDIM, 0, [0], 1, [0]), (B_TET, 0, [0], 1, _G2)] +
+    [(B_LOWDIM, k, _c05_all(B_LOWDIM, k), 2, [0]) for k in (1, 2, 3)] +
+    [(B_TET, k, _c05_all(B_TET, k), 1, _G2) for k in (1, 2, 3, 4)] +
     [(B_TET2_FACE, 0, [0], 1, _G4), (B_TET2_FACE, 1, [0, 1, 2, 3, 4], 1, _G4), (B_TET2_FACE, 2, [0, 3, 8], 1, _G4),
      (B_TET2_FACE, 3, [0, 3, 6], 1, _G4), (B_TET2_FACE, 4, [0, 1], 1, _G4)] +
     [(B_TET3_RING, 0, [0], 1, _G4), (B_TET3_RING, 1, [0, 4], 1, _G4), (B_TET3_RING, 2, [0, 9], 1, _G4),
